@@ -23,7 +23,7 @@ from akext import index as _index
 from akext import identities as _identities
 from akext._util import (FILENAME, CastError, arg_int64, arg_bool, arg_string, arg_optstring, arg_double, cast_int64,
                          cast_uint64, cast_double, cast_string, dict2parameters, parameters2dict, typestrs_arg,
-                         is_iterable, _badarg)
+                         is_iterable, _badarg, no_pickle)
 
 
 def _fn(line):
@@ -517,6 +517,7 @@ def _minmax(name):
 
 # ---------------------------------------------------------------- Content and content_methods<T>
 
+@no_pickle
 class Content(object):
     """awkward._ext.Content: the abstract base registered by make_Content"""
     __slots__ = ("_h", "__weakref__")
@@ -1191,6 +1192,7 @@ def _astuple(self):
     return _boxc(_lib.L.akp_astuple(self._h))
 
 
+@no_pickle
 @_ext
 class Record(object):
     """awkward._ext.Record (not a Content subclass in Python)"""
@@ -1511,6 +1513,7 @@ Content.__module__ = "awkward._ext"
 
 # ---------------------------------------------------------------- Iterator, _PersistentSharedPtr
 
+@no_pickle
 @_ext
 class Iterator(object):
     __slots__ = ("_h", "__weakref__")
@@ -1544,6 +1547,7 @@ class Iterator(object):
         return self
 
 
+@no_pickle
 @_ext
 class _PersistentSharedPtr(object):
     """holds one more std::shared_ptr<Content> to the node; ptr() is the address of that shared_ptr"""
@@ -1587,6 +1591,7 @@ def _builder_datetime(self, obj, name, bridge_fn):
                          + _fn(850 if name == "datetime64" else 871))
 
 
+@no_pickle
 @_ext
 class ArrayBuilder(object):
     __slots__ = ("_h", "__weakref__")
